@@ -9,7 +9,7 @@ OPS = {'rt': 0, 'blocks': 1, 'multi': 2, 'read': 3, 'row2fts': 4, 'fts2row': 5, 
 RESERVED = ['items', 'keys', 'values', 'get', 'update', 'pop', 'copy', 'setdefault', 'clear', 'popitem']
 RULE = ('abstract alignments (1-6 rows, width 1-70, random GF/GC/GS/GR sets with adversarial ids/keys/values) written by sugar and '
         'read back (StringIO handle and real files); the same alignments rendered by an independent interleaving renderer at every '
-        'block width; 1-4 alignments per handle read repeatedly; raw texts with repeated GF/GS lines, comments, blank lines, '
+        'block width; 1-4 alignments per handle read repeatedly; raw texts with repeated GF/GS tags (adjacent and non-adjacent, merged with other tags and moved between sequence blocks), comments, blank lines, '
         'shuffled markup and garbage lines; random well-formed and malformed feature lists and rows for fts2row/row2fts and both '
         'compositions; non-trivial = distinct case with annotations of some kind, >1 block, >1 alignment, repeated lines, '
         'shared boundary / open end / offset / long feature')
@@ -172,31 +172,59 @@ def impl(case):
 
 
 # ----------------------------------------------------------------------------- independent renderer (interleaved form)
-def render(a, bw, rng=None, o=None):
+def render(a, bw, rng=None, o=None, info=None):
     """Stockholm text of abstract alignment a in blocks of bw columns; with rng/o: cosmetic variations that do not
     change the content (blank lines, comments, field separators, split GF/GS text lines, moved markup)."""
     o = o or {}
     sep = (lambda: rng.choice([' ', '  ', '\t', ' \t ', '     '])) if o.get('seps') else (lambda: ' ')
 
-    def text_lines(tag, pre, k, v):
-        parts = [v]
-        if o.get('splitgf') and ' ' in v:
-            ws = [w for w in v.split(' ')]
-            if all(ws):                       # single spaces only: joining the pieces with ' ' gives v back
-                cut = sorted(rng.sample(range(1, len(ws)), rng.randint(1, min(2, len(ws) - 1)))) if len(ws) > 1 else []
-                parts, last = [], 0
-                for c in cut + [len(ws)]:
-                    parts.append(' '.join(ws[last:c]))
-                    last = c
-        return [tag + sep() + pre + k + sep() + p for p in parts]
+    def frags(v):
+        """pieces of a text value; joined by single spaces they give v back"""
+        if not o.get('splitgf') or ' ' not in v:
+            return [v]
+        ws = v.split(' ')
+        if not all(ws) or len(ws) < 2:         # only values whose words are separated by single spaces are split
+            return [v]
+        cut = sorted(rng.sample(range(1, len(ws)), rng.randint(1, min(3, len(ws) - 1))))
+        parts, last = [], 0
+        for c in cut + [len(ws)]:
+            parts.append(' '.join(ws[last:c]))
+            last = c
+        return parts
 
     head = ['# STOCKHOLM 1.0']
-    markup = []
-    for k, v in a['gf']:
-        markup += text_lines('#=GF', '', k, v)
+    # every GF / GS entry is a queue of fragments; the queues are merged in random order, so repeats of one tag are
+    # adjacent or separated by lines of other tags (Rfam/Pfam RN/RM/RT reference groups, split CC lines)
+    queues = [['#=GF', '', k, frags(v)] for k, v in a['gf']]
     for sid, _, gs, _ in a['rows']:
-        for k, v in gs:
-            markup += text_lines('#=GS', sid + sep(), k, v)
+        queues += [['#=GS', sid, k, frags(v)] for k, v in gs]
+    markup, order = [], []
+    if o.get('splitgf') and rng is not None and rng.random() < 0.8:
+        live = [q for q in queues]
+        cur = None
+        while live:
+            if cur is None or not any(cur is q for q in live) or rng.random() < 0.6:
+                cur = live[0] if rng.random() < 0.5 else rng.choice(live)
+            tag, sid, k, fr = cur
+            markup.append(tag + sep() + (sid + sep() if sid else '') + k + sep() + fr.pop(0))
+            order.append((tag, sid, k))
+            if not fr:
+                live = [q for q in live if q is not cur]
+    else:
+        for tag, sid, k, fr in queues:
+            for f in fr:
+                markup.append(tag + sep() + (sid + sep() if sid else '') + k + sep() + f)
+                order.append((tag, sid, k))
+    if info is not None:
+        # expected key orders: first occurrence in the file; values: all fragments joined by single spaces = the value
+        info['gf'] = list(dict.fromkeys(k for tag, sid, k in order if tag == '#=GF'))
+        info['gs'] = {}
+        for tag, sid, k in order:
+            if tag == '#=GS' and k not in info['gs'].setdefault(sid, []):
+                info['gs'][sid].append(k)
+        info['nonadjacent'] = any(order[i] in order[:i] and
+                                  any(x[0] == order[i][0] and x != order[i] for x in order[order[:i].index(order[i]) + 1:i])
+                                  for i in range(1, len(order)))
     w = len(a['rows'][0][1]) if a['rows'] else 0
     body = []
     nb = (w + bw - 1) // bw if bw > 0 else 0
@@ -238,6 +266,12 @@ def render(a, bw, rng=None, o=None):
 def canon_aln(a):
     return [[list(p) for p in a['gf']], [list(p) for p in a['gc']],
             [[r[0], r[1], [list(p) for p in r[2]], [list(p) for p in r[3]]] for r in a['rows']]]
+
+
+def canon_aln_ordered(a, info):
+    gf, gsd = dict(a['gf']), {r[0]: dict(r[2]) for r in a['rows']}
+    return [[[k, gf[k]] for k in info['gf']], [list(p) for p in a['gc']],
+            [[r[0], r[1], [[k, gsd[r[0]][k]] for k in info['gs'].get(r[0], [])], [list(p) for p in r[3]]] for r in a['rows']]]
 
 
 EMPTY = [[], [], []]
@@ -554,17 +588,20 @@ def gen_cases(rng, tier):
     for i in range(3500 if T else 280):
         alns = [gen_aln(rng, maxrows=4, maxw=24, small=rng.random() < 0.4) for _ in range(rng.choice([1, 1, 2, 3]))]
         o = {'seps': rng.random() < 0.5, 'splitgf': rng.random() < 0.6, 'move': rng.random() < 0.4, 'noise': rng.random() < 0.5}
-        texts = []
+        texts, expect, nonadj = [], [], False
         for k, a in enumerate(alns):
             oo = dict(o)
             if k == len(alns) - 1 and rng.random() < 0.3:
                 oo['end'] = rng.choice([None, '//  ', '// trailing', '//x'])
             w = len(a['rows'][0][1])
-            texts.append(render(a, rng.choice([w, w, max(1, w // 2), rng.randint(1, w)]), rng, oo))
+            info = {}
+            texts.append(render(a, rng.choice([w, w, max(1, w // 2), rng.randint(1, w)]), rng, oo, info))
+            expect.append(canon_aln_ordered(a, info))
+            nonadj = nonadj or info['nonadjacent']
         text = ''.join(texts)
         n = len(alns) + rng.choice([0, 1])
-        expect = [canon_aln(a) for a in alns] + [EMPTY]
-        case = {'op': 'read', 'text': text, 'n': n, 'expect': expect[:n], 'split': o['splitgf'], 'moved': o['move'],
+        expect = expect + [EMPTY]
+        case = {'op': 'read', 'text': text, 'n': n, 'expect': expect[:n], 'split': o['splitgf'], 'moved': o['move'], 'nonadj': nonadj,
                 'crc': zlib.crc32(text.encode('latin-1'))}
         if rng.random() < 0.25:                      # garbage: a damaged line somewhere
             lines = text.split('\n')
@@ -607,7 +644,8 @@ def nontrivial(case, got):
     if op == 'multi':
         return 'multi' if len(case['alns']) > 1 else None
     if op == 'read':
-        return 'read:%s%s' % ('split' if case.get('split') else '', 'moved' if case.get('moved') else '') if case.get('expect') else 'garbage'
+        return 'read:%s%s%s' % ('split' if case.get('split') else '', 'moved' if case.get('moved') else '',
+                                'nonadj' if case.get('nonadj') else '') if case.get('expect') else 'garbage'
     if op in ('ftsrt', 'fts2row'):
         fts = sorted(case['fts'])
         m = []
@@ -682,8 +720,8 @@ LEVEL_TEXT = ('Machine-checked Coq theorems over a line-by-line Gallina model of
               'columns 0..9) and by differential testing beyond the boxes. The model is tied to /repo by running sugar (public read/write '
               'entry points, StringIO handles and real files) and the model on the same generated cases on every run, and by an '
               'independent Python oracle (own interleaving renderer, own row parser).')
-LEVEL_NOTE = ('All 12 theorems closed under the global context (no axioms). Proved for all inputs: stk_roundtrip, stk_stop, stk_multi, '
-              'stk_interleave(+_stop), stk_gf_join, stk_gs_join, lines_items. Proved only on bounded boxes (vm_compute enumeration, bounds '
+LEVEL_NOTE = ('All 16 theorems closed under the global context (no axioms). Proved for all inputs: stk_roundtrip, stk_stop, stk_multi, '
+              'stk_interleave(+_stop), stk_gf_join, stk_gs_join, gf_all_frags, gs_all_frags, read_text_gf_join, read_text_gs_join (all fragments of a repeated GF/GS tag anywhere in the file, adjacent or not, joined by single spaces in file order), lines_items. Proved only on bounded boxes (vm_compute enumeration, bounds '
               'in the statements): row_fts_row_box, fts_row_fts_box; outside the boxes (long names, >2 features, the >150-column name '
               'repetition of fts2row, str.center parity) the row clauses rest on the correspondence. Trusted: Coq kernel/vm_compute, '
               'tools/gens/flags.py, the correspondence harness, CPython str/dict/re/io primitives as modelled (Latin-1 only). Modelled rather '
